@@ -55,6 +55,11 @@ def render(tokens, spaced):
     names = iter("abcdefgh")
     for tk in tokens:
         out.append(next(names) + "1" if tk == "a" else tk)
+    if spaced == "trail":
+        return render(tokens, False) + "\n"            # nothing but one trailing newline (a line read from a file)
+    if spaced == "odd":
+        # the other blanks the grammar ignores: a leading tab, newlines between tokens, one trailing newline
+        return "\t" + "\n".join(out) + "\n"
     if spaced:
         return " ".join(out)
     txt = ""
@@ -69,7 +74,7 @@ def check(arg):
     repo, tokens = arg
     st = load(repo)
     bad, rows = [], []
-    for spaced in (False, True):
+    for spaced in (False, True, "odd", "trail"):
         text = render(tokens, spaced)
         try:
             a = shape(st["lalr"].parse(text))
